@@ -410,6 +410,58 @@ def unroll_literal_loops(tree, max_items=16, max_body=4):
     return count
 
 
+def fuse_nested_comprehensions(tree):
+    """N15: `[E(x) for x in [G(i) for i in R if C] if D(x)]` is `[E(G(i)) for i in R if C if D(G(i))]` (a list of intermediate values built
+    only to be mapped again).  Applied when the inner element is call-free or used once, and the names do not clash."""
+    import copy
+    count = 0
+
+    class Sub(ast.NodeTransformer):
+        def __init__(self, name, val):
+            self.name, self.val = name, val
+
+        def visit_Name(self, node):
+            if node.id == self.name and isinstance(node.ctx, ast.Load):
+                return copy.deepcopy(self.val)
+            return node
+
+    class T(ast.NodeTransformer):
+        def _fuse(self, node):
+            nonlocal count
+            self.generic_visit(node)
+            if len(node.generators) != 1:
+                return node
+            g = node.generators[0]
+            inner = g.iter
+            if not (isinstance(inner, (ast.ListComp, ast.GeneratorExp)) and len(inner.generators) == 1 and isinstance(g.target, ast.Name) and not g.is_async):
+                return node
+            x = g.target.id
+            parts = ([node.key, node.value] if isinstance(node, ast.DictComp) else [node.elt]) + list(g.ifs)
+            uses = sum(1 for p_ in parts for n in ast.walk(p_) if isinstance(n, ast.Name) and n.id == x and isinstance(n.ctx, ast.Load))
+            has_call = any(isinstance(n, ast.Call) for n in ast.walk(inner.elt))
+            if has_call and uses > 1:
+                return node
+            ig = inner.generators[0]
+            inner_names = {n.id for n in ast.walk(ig.target) if isinstance(n, ast.Name)}
+            outer_free = {n.id for p_ in parts for n in ast.walk(p_) if isinstance(n, ast.Name)} - {x}
+            if inner_names & outer_free:
+                return node
+            sub = Sub(x, inner.elt)
+            if isinstance(node, ast.DictComp):
+                node.key, node.value = sub.visit(node.key), sub.visit(node.value)
+            else:
+                node.elt = sub.visit(node.elt)
+            new_ifs = list(ig.ifs) + [sub.visit(t) for t in g.ifs]
+            node.generators = [ast.comprehension(target=ig.target, iter=ig.iter, ifs=new_ifs, is_async=0)]
+            count += 1
+            return node
+
+        visit_ListComp = visit_GeneratorExp = visit_SetComp = visit_DictComp = _fuse
+
+    T().visit(tree)
+    return count
+
+
 def normalize(tree):
     n = Normalizer()
     tree = n.visit(tree)
